@@ -401,17 +401,21 @@ def probe_from_case(p):
 
 
 def observe(q, probes, seed, phases=(0, 1)):
-  """Calls q on every probe under learning phase 0 and 1 (TF seed re-armed
-  before every call) and records output and `scale` (or the exception type)."""
+  """Calls q on every probe under learning phase 0 and 1 and records output
+  and `scale` (or the exception type).  The TF seed is re-armed once per
+  observation sequence (tf.random.set_seed clears the kernel caches and
+  triples the cost of the next call): two quantizers with the same
+  configuration execute the same sequence of random ops and therefore see the
+  same random numbers."""
   import tensorflow as tf  # pylint: disable=g-import-not-at-top
   K = tf.keras.backend
   out = []
   try:
+    tf.random.set_seed(seed)
     for p in probes:
       x = probe_from_case(p)
       for ph in phases:
         K.set_learning_phase(ph)
-        tf.random.set_seed(seed)
         try:
           y = np.asarray(q(tf.constant(x)))
           sc = getattr(q, "scale", None)
